@@ -15,7 +15,7 @@ def one(args):
     m = re.search(r"exit (\d+) violations (\d+) (\[.*\])", last)
     return os.path.basename(d.rstrip("/")), sd, (dict(exit=int(m.group(1)), violations=int(m.group(2)), signatures=m.group(3)) if m else dict(error=last[-200:]))
 out = {}
-with ThreadPoolExecutor(4) as ex:
+with ThreadPoolExecutor(int(os.environ.get("SEEDMATRIX_JOBS", "4"))) as ex:
     for name, sd, res in ex.map(one, [(d, sd) for d in dirs for sd in seeds]):
         out.setdefault(name, {})[sd] = res
         print(name, sd, res, flush=True)
